@@ -389,6 +389,31 @@ def nested_payloads(rng, inner_payload):
     return [(w, pl) for w, pl in out if 2 <= len(pl) <= 1023]
 
 
+def trailer_lookalike_payloads(base):
+    """variants of `base` (last two payload bytes replaced) whose frame has a checksum that ends in CR LF, begins with the preamble D3,
+    is all zero in its last byte, or ends in '$' / the UBX sync: a parser that tidies up / resynchronises on the trailer would lose them.
+    Found by search over the 65536 replacements (deterministic)."""
+    want = {"checksum ends in CR LF": lambda c: c[1:] == b"\r\n", "checksum begins with D3": lambda c: c[0] == 0xD3,
+            "checksum ends in LF": lambda c: c[2] == 0x0A and c[1] != 0x0D, "checksum is B5 62 ..": lambda c: c[:2] == b"\xb5\x62"}
+    out = {}
+    n = len(base)
+    hdr = b"\xd3" + n.to_bytes(2, "big")
+    # CRC is linear: crc(x ^ d) = crc(x) ^ crc(d) for equal-length strings; the last two payload bytes contribute crc(0..0 b1 b2)
+    c0 = crc24q_ref(hdr + base[:-2] + b"\x00\x00")
+    table = {}
+    for v in range(65536):
+        cv = crc24q_ref(v.to_bytes(2, "big"))          # leading zero bytes do not change the register
+        c = (c0 ^ cv).to_bytes(3, "big")
+        for what, f in want.items():
+            if what not in out and f(c):
+                pl = base[:-2] + v.to_bytes(2, "big")
+                if crc24q_ref(hdr + pl).to_bytes(3, "big") == c:
+                    out[what] = pl
+        if len(out) == len(want):
+            break
+    return sorted(out.items())
+
+
 def prefix_frame_pairs(rng):
     """(long frame, bit positions to flip, short frame): flipping the given bits of the long frame's LENGTH field yields a byte string whose
     prefix is exactly the valid short frame.  A parser that trusts a damaged length field and re-checks the prefix accepts the damage."""
